@@ -95,6 +95,14 @@ AREAS = {
         "property": "C09 C05 (prepareReadPaths, nilCheckRead, nilCheckWrite of internal/mapper/check.go = paths_map / the need predicates / "
                     "ptr_path_list of Model/Mapper.v analyse)",
     },
+    "mapctor": {
+        "module": "MapCtorGen",
+        "bridge": "Bridge/MapCtorBridge.v",
+        "prims": ["GoPrims", "MapCtorPrims"],
+        "targets": ["Base/Str.vo", "Model/Mapper.vo", "Proofs/MapperCtorProofs.vo"],
+        "property": "C15 (makeCtorMatch of internal/mapper/ctor.go: the three nested loops, the zero-value loop and the method calling it "
+                    "for both directions = make_ctor_match / ctor_step / ctor_func_loop of Model/Mapper.v, as used by prepare)",
+    },
     "enum": {
         "module": "EnumGen",
         "bridge": "Bridge/EnumBridge.v",
